@@ -49,6 +49,10 @@ def gen(rng, i):
     final = rng.choice(pool)
     refs.append(final)
     refs.append(c["model"]["init"])
+    if i % 2 == 0:
+        # back and forth: final, other, final, final — a state remembered for "the previous parameters" must not resurface
+        other = rng.choice([a for a in pool if a != final] or [final])
+        ops += [["set", final], ["set", other], ["set", final]]
     # the final state: queried repeatedly
     ops += [["set", final], ["observe"], ["jac"], ["observe"], ["jac"], ["observe"]]
     seen = []
